@@ -292,7 +292,7 @@ def cnf_text_cfg(draw):
 
 @st.composite
 def nfa2dfa_cases(draw, tier):
-    spec = draw(G.nfa_specs(max_states=4, max_sigma=2, eps_choices=GX.PRINTABLE_EPS))
+    spec = draw(G.nfa_specs(max_states=4, max_sigma=3, eps_choices=GX.PRINTABLE_EPS))
     return {"nfa": spec, "layout": draw(GX.layouts("nfa", spec))}
 
 
@@ -304,7 +304,7 @@ def dfa2regexp_cases(draw, tier):
 
 @st.composite
 def product_cases(draw, tier):
-    S = draw(G.alphabets(0, 2))
+    S = draw(G.alphabets(0, 3))
     overlap = draw(st.booleans())
     return {"d1": draw(G.dfa_specs(max_states=3, sigma=S, pool=G.POOL[:8])), "d2": draw(G.dfa_specs(max_states=3, sigma=S, pool=G.POOL[:8] if overlap else G.POOL[8:16])),
             "op": draw(st.sampled_from(["union", "intersection", "symmetric_difference"]))}
@@ -313,8 +313,8 @@ def product_cases(draw, tier):
 @st.composite
 def unary_cases(draw, tier):
     ex = draw(st.sampled_from(["complement", "reverse", "minimal", "hopcroft"]))
-    spec = draw(st.one_of(G.dfa_specs(max_states=4, max_sigma=2), G.inflated_dfa_specs(max_states=3, max_sigma=2)))
-    return {"dfa": spec, "exercise": ex, "n": draw(st.sampled_from([4, 5, 8])), "layout": draw(GX.layouts("dfa", spec))}
+    spec = draw(st.one_of(G.dfa_specs(max_states=4, max_sigma=3), G.inflated_dfa_specs(max_states=3, max_sigma=2)))
+    return {"dfa": spec, "exercise": ex, "n": draw(st.sampled_from([4, 5, 8] if len(spec["S"]) < 3 else [4, 5])), "layout": draw(GX.layouts("dfa", spec))}
 
 
 @st.composite
